@@ -77,6 +77,20 @@ M = [
  ('avx2-half-init', 'convolution/u8x4/avx2.rs', '_mm256_set1_epi32(1 << (PRECISION - 2));', '_mm256_set1_epi32(1 << (PRECISION - 1));', ['C02']),
  ('u8x3-maxx',      'convolution/u8x3/sse4.rs', 'let max_x = src_width.saturating_sub(5);\n        if x < max_x {\n            let coeffs_by_4 = coeffs.chunks_exact(4);\n            for k in coeffs_by_4 {\n                let ksource = simd_utils::loadl_epi64(k, 0);\n                let source = simd_utils::loadu_si128(src_row, x);\n\n                let pix = _mm_shuffle_epi8(source, pix_sh1);', 'let max_x = src_width.saturating_sub(4);\n        if x < max_x {\n            let coeffs_by_4 = coeffs.chunks_exact(4);\n            for k in coeffs_by_4 {\n                let ksource = simd_utils::loadl_epi64(k, 0);\n                let source = simd_utils::loadu_si128(src_row, x);\n\n                let pix = _mm_shuffle_epi8(source, pix_sh1);', ['C02', 'C03']),
  ('u8x3-mask',      'convolution/u8x3/sse4.rs', '-1, -1, -1, -1, -1, 11, -1, 8, -1, 10, -1, 7, -1, 9, -1, 6,', '-1, -1, -1, -1, -1, 11, -1, 8, -1, 10, -1, 7, -1, 9, -1, 5,', ['C02']),
+ ('u8x2-mask4',     'convolution/u8x2/sse4.rs', '-1, 7, -1, 5, -1, 3, -1, 1, -1, 6, -1, 4, -1, 2, -1, 0,', '-1, 7, -1, 5, -1, 3, -1, 1, -1, 6, -1, 2, -1, 4, -1, 0,', ['C02']),
+ ('u8x2-coeffmask', 'convolution/u8x2/sse4.rs', '15, 14, 13, 12, 15, 14, 13, 12, 11, 10, 9, 8, 11, 10, 9, 8,', '15, 14, 13, 12, 15, 14, 13, 12, 11, 10, 9, 8, 9, 8, 11, 10,', ['C02']),
+ ('u8x2-init',      'convolution/u8x2/sse4.rs', 'let mut sss = _mm_set1_epi32(1 << (precision - 2));', 'let mut sss = _mm_set1_epi32(1 << (precision - 1));', ['C02']),
+ ('u8x2-wrapadd',   'convolution/u8x2/sse4.rs', 'let a32 = ((lo >> 32) as i32).saturating_add((hi >> 32) as i32);', 'let a32 = ((lo >> 32) as i32).wrapping_add((hi >> 32) as i32);', ['C02']),
+ ('u16x1-mask',     'convolution/u16x1/sse4.rs', 'let l23_shuffle = _mm_set_epi8(-1, -1, -1, -1, -1, -1, 7, 6, -1, -1, -1, -1, -1, -1, 5, 4);', 'let l23_shuffle = _mm_set_epi8(-1, -1, -1, -1, -1, -1, 7, 6, -1, -1, -1, -1, -1, -1, 5, 5);', ['C02']),
+ ('u16x1-four-mask','convolution/u16x1/sse4.rs', 'let l4l5_shuffle = _mm_set_epi8(-1, -1, -1, -1, -1, -1, 11, 10, -1, -1, -1, -1, -1, -1, 9, 8);', 'let l4l5_shuffle = _mm_set_epi8(-1, -1, -1, -1, -1, -1, 11, 10, -1, -1, -1, -1, -1, 9, -1, 8);', ['C02']),
+ ('u16x1-coeffswap','convolution/u16x1/sse4.rs', 'let coeff23_i64x2 = _mm_set_epi64x(k[3] as i64, k[2] as i64);', 'let coeff23_i64x2 = _mm_set_epi64x(k[2] as i64, k[3] as i64);', ['C02']),
+ ('u16x2-mask',     'convolution/u16x2/sse4.rs', 'let p2_shuffle = _mm_set_epi8(-1, -1, -1, -1, -1, -1, 11, 10, -1, -1, -1, -1, -1, -1, 9, 8);', 'let p2_shuffle = _mm_set_epi8(-1, -1, -1, -1, -1, -1, 9, 8, -1, -1, -1, -1, -1, -1, 11, 10);', ['C02']),
+ ('u16x3-mask',     'convolution/u16x3/sse4.rs', 'let bb_shuffle = _mm_set_epi8(-1, -1, -1, -1, -1, -1, 11, 10, -1, -1, -1, -1, -1, -1, 5, 4);', 'let bb_shuffle = _mm_set_epi8(-1, -1, -1, -1, -1, -1, 11, 10, -1, -1, -1, -1, -1, -1, 3, 2);', ['C02']),
+ ('u16x3-guard',    'convolution/u16x3/sse4.rs', 'if width - end_x >= 1 {', 'if width - end_x >= 0 {', ['C02']),
+ ('u16x3-bbinit',   'convolution/u16x3/sse4.rs', 'let bb_initial = _mm_set1_epi64x(1 << (precision - 2));', 'let bb_initial = _mm_set1_epi64x(1 << (precision - 1));', ['C02']),
+ ('u16x4-mask',     'convolution/u16x4/sse4.rs', 'let ba0_shuffle = _mm_set_epi8(-1, -1, -1, -1, -1, -1, 7, 6, -1, -1, -1, -1, -1, -1, 5, 4);', 'let ba0_shuffle = _mm_set_epi8(-1, -1, -1, -1, -1, -1, 5, 4, -1, -1, -1, -1, -1, -1, 7, 6);', ['C02']),
+ ('u16x4-avx2-mask','convolution/u16x4/avx2.rs', '-1, -1, -1, -1, -1, -1, 15, 14, -1, -1, -1, -1, -1, -1, 13, 12,\n        -1, -1, -1, -1, -1, -1, 15, 14, -1, -1, -1, -1, -1, -1, 13, 12,', '-1, -1, -1, -1, -1, -1, 15, 14, -1, -1, -1, -1, -1, -1, 13, 12,\n        -1, -1, -1, -1, -1, -1, 15, 14, -1, -1, -1, -1, -1, -1, 11, 12,', ['C02']),
+ ('u16x4-avx2-join','convolution/u16x4/avx2.rs', 'normalizer.clip(rg_buf[1] + rg_buf[3] + half_error),', 'normalizer.clip(rg_buf[1] + rg_buf[2] + half_error),', ['C02']),
  ('alpha-list',     'mul_div.rs', 'PixelType::U8x2\n', 'PixelType::U8x3\n', ['C06', 'C07']),
 ]
 
@@ -95,7 +109,10 @@ def main():
     pristine = os.path.join(SCR, 'src0')
     shutil.copytree(SRC0, pristine)
     results = []
+    only = [a for a in sys.argv[1:] if not a.startswith('--')]
     for mid, f, old, new, props in M:
+        if only and mid not in only:
+            continue
         shutil.rmtree(src)
         shutil.copytree(pristine, src)
         path = os.path.join(src, f)
@@ -125,7 +142,7 @@ def main():
     appl = sum(1 for r in results if not r['outcome'].startswith('not-applicable'))
     print('summary: %d of %d applicable micro-mutants break the proof layer by themselves' % (caught, appl))
     os.makedirs(os.path.join(ROOT, 'work'), exist_ok=True)
-    json.dump({'caught': caught, 'applicable': appl, 'results': results}, open(os.path.join(ROOT, 'work', 'micromut.json'), 'w'), indent=1)
+    json.dump({'caught': caught, 'applicable': appl, 'results': results}, open(os.path.join(ROOT, 'work', 'micromut%s.json' % ('-partial' if only else '')), 'w'), indent=1)
     if '--keep' not in sys.argv:
         shutil.rmtree(SCR)
 
